@@ -331,6 +331,22 @@ def gen_C13(rng, tier):
 def gen_C12(rng, tier):
     out = []
     acc = ["len", "is_empty", "range", "last_line", "payload_size"]
+    # the smallest series: empty, one line, two lines, each seen again after a reopen
+    for p in [0, 1, 2, 3, 4, 8, 40]:
+        h = Hist(p)
+        h.new()
+        t = rng.choice([0, 7, 1 << 33, U64 - 3])
+        for k in range(3):
+            for a in acc:
+                h.op(a)
+            h.reopen()
+            for a in acc:
+                h.op(a)
+            h.push(t + k, rng)
+        for a in acc:
+            h.op(a)
+        if marker_free(p, h.ts):
+            out.append((f"tiny-p{p}", h.script()))
     for h0 in _histories(rng, tier, PAYLOADS_SMALL + [16]):
         h = Hist(h0.p, hdr=h0.hdr)
         h.new()
